@@ -185,14 +185,21 @@ def stepP (cfg : Cfg) (ig : List UInt8) (k : UInt8) (n : Nat) (s : St) : St :=
 
 /-! ## consumer steps -/
 
-/-- the callback; with `app` it also does what `cmd-car-split.go` does: `family := append(children, *parent)`,
-    which writes into the delivered backing array when it has room -/
-def cbStore (app : Bool) (s : St) (f : FB) : Nat → Arr :=
+/-- the cell the callback writes, if any: with `app` it does what `cmd-car-split.go` does,
+    `family := append(children, *parent)`, which writes into the delivered backing array when it has room
+    (otherwise `append` copies into an array of its own, which nobody else ever sees) -/
+def cbWrite (app : Bool) (s : St) (f : FB) : Option (Nat × Arr) :=
   match app, f.parent with
   | true, some p =>
-    if f.sl.len < (s.store f.sl.arr).cap then upd s.store f.sl.arr ((s.store f.sl.arr).write f.sl.len p)
-    else s.store
-  | _, _ => s.store
+    let a := s.store f.sl.arr
+    if f.sl.len < a.cap then some (f.sl.arr, a.write f.sl.len p) else none
+  | _, _ => none
+
+/-- the heap after the callback (specification form of the `match` in `stepC`) -/
+def cbStore (app : Bool) (s : St) (f : FB) : Nat → Arr :=
+  match cbWrite app s f with
+  | some (i, v) => upd s.store i v
+  | none => s.store
 
 def stepC (app : Bool) (s : St) : St :=
   match s.cpc with
@@ -202,11 +209,23 @@ def stepC (app : Bool) (s : St) : St :=
     | [] => if s.closed then { s with cpc := .exited } else s
   | .call fb =>
     let f := s.fbs fb
-    { s with store := cbStore app s f, seen := s.seen ++ [⟨f.parent, readSl s f.sl⟩],
-             handed := s.handed ++ [(f.parent, f.sl)], cpc := .fin fb }
+    let s1 := { s with seen := s.seen ++ [⟨f.parent, readSl s f.sl⟩], handed := s.handed ++ [(f.parent, f.sl)],
+                       cpc := .fin fb }
+    match cbWrite app s f with
+    | some (i, v) => { s1 with store := upd s.store i v }
+    | none => s1
   | .fin fb => { s with wg := s.wg - 1, cpc := .put fb }
   | .put fb => { s with fbs := upd s.fbs fb ⟨none, ⟨(s.fbs fb).sl.arr, 0⟩⟩, pool := fb :: s.pool, cpc := .idle }
   | .exited => s
+
+theorem stepC_call (app : Bool) (s : St) (fb : Nat) (hc : s.cpc = .call fb) :
+    stepC app s = { s with store := cbStore app s (s.fbs fb),
+                           seen := s.seen ++ [⟨(s.fbs fb).parent, readSl s (s.fbs fb).sl⟩],
+                           handed := s.handed ++ [((s.fbs fb).parent, (s.fbs fb).sl)], cpc := .fin fb } := by
+  simp only [stepC, hc, cbStore]
+  cases cbWrite app s (s.fbs fb) with
+  | none => rfl
+  | some iv => rfl
 
 /-! ## schedules -/
 
